@@ -10,7 +10,7 @@ use vstd::prelude::*;
 verus! {
 //@prelude std_specs r32
 
-pub enum SvgdxError { MissingBoundingBox(String), Other }
+pub enum SvgdxError { MissingBoundingBox(String), InvalidData(String), Other }
 pub type Result<T> = core::result::Result<T, SvgdxError>;
 #[verifier::external_body] pub struct SvgElement { _p: u8 }
 #[verifier::external_body] pub struct Ctx { _p: u8 }
@@ -172,7 +172,43 @@ pub open spec fn dd(a: BoundingBox, b: BoundingBox, la: LocSpec, lb: LocSpec) ->
 //@     && (exists|k: int| 0 <= k < g_c.len() && #[trigger] g_c[k] == this_min_loc) && (exists|k: int| 0 <= k < g_c.len() && #[trigger] g_c[k] == that_min_loc)
 //@end
 
+//@item src/connector.rs :: struct Endpoint
+//@ keep-derive Clone Copy
+//@end
+//@item src/connector.rs :: struct Connector
+//@end
+impl Length {
+    #[verifier::external_body]
+    pub fn calc_offset(&self, start: R32, end: R32) -> (r: R32) ensures val(r) == len_offset(*self, val(start), val(end)) { unimplemented!() }
+    #[verifier::external_body]
+    pub fn absolute(&self) -> (r: Option<R32>) ensures r == (match *self { Length::Absolute(a) => Some(a), _ => None }) { unimplemented!() }
+}
+pub open spec fn pt(p: (R32, R32)) -> (real, real) { (val(p.0), val(p.1)) }
+pub open spec fn vertical_dir(d: Direction) -> bool { d is Up || d is Down }
+/// consecutive points share a coordinate: every segment is axis-parallel
+pub open spec fn rectilinear(ps: Seq<(R32, R32)>) -> bool {
+    forall|i: int| 0 <= i < ps.len() - 1 ==> val((#[trigger] ps[i]).0) == val(ps[i + 1].0) || val(ps[i].1) == val(ps[i + 1].1)
+}
+
 impl Connector {
+//@item src/connector.rs :: impl Connector :: fn render
+//@ fragment-name corner_points
+//@ fragment-from <<<                    points = match (start_dir_some, end_dir_some) {>>>
+//@ fragment-to <<<\n                    };>>>
+//@ fragment-head <<<fn corner_points(&self, x1: f32, y1: f32, x2: f32, y2: f32, start_dir_some: Direction, end_dir_some: Direction, default_ratio_offset: Length, default_abs_offset: Length) -> Result<Vec<(f32, f32)>> {\n    let points;>>>
+//@ fragment-tail <<<    Ok(points)\n}>>>
+//@ requires
+//@ - (x1, y1) == self.start.origin && (x2, y2) == self.end.origin
+//@ ensures
+//@ - r is Ok ==> r->Ok_0@.len() >= 3 && pt(r->Ok_0@[0]) == (val(x1), val(y1)) && pt(r->Ok_0@.last()) == (val(x2), val(y2))     @@C13.corner.endpoints
+//@ - r is Ok ==> rectilinear(r->Ok_0@)     @@C13.corner.rectilinear
+//@ - r is Ok ==> (vertical_dir(start_dir_some) ==> val(r->Ok_0@[0].0) == val(r->Ok_0@[1].0))
+//@     && (!vertical_dir(start_dir_some) ==> val(r->Ok_0@[0].1) == val(r->Ok_0@[1].1))     @@C13.corner.leaves_perpendicular
+//@ - r is Ok ==> ({ let n = r->Ok_0@.len() as int;
+//@       (vertical_dir(end_dir_some) ==> val(r->Ok_0@[n - 1].0) == val(r->Ok_0@[n - 2].0))
+//@       && (!vertical_dir(end_dir_some) ==> val(r->Ok_0@[n - 1].1) == val(r->Ok_0@[n - 2].1)) })     @@C13.corner.enters_perpendicular
+//@end
+
 //@item src/connector.rs :: impl Connector :: fn loc_to_dir
 //@ ensures
 //@ - (loc is Top || loc is TopEdge) ==> r == Some(Direction::Up)     @@C13.dir.top
@@ -182,7 +218,6 @@ impl Connector {
 //@ - (loc is TopLeft || loc is TopRight || loc is BottomLeft || loc is BottomRight || loc is Center) ==> r is None     @@C13.dir.corner_none
 //@end
 }
-pub struct Connector { pub _p: u8 }
 
 } // verus!
 fn main() {}
